@@ -208,8 +208,53 @@ func checkC02(p *Prog, r *Report) {
 	r.rule("C02.A6", "UDPSession.update re-submits itself on every path of the not-closed arm with the delay returned by flush", 1)
 	r.rule("C02.A7", "no blocking operation (channel operation outside a select with default, Sleep, WaitN, WaitGroup.Wait, socket I/O) is reachable while UDPSession.mu is held; exemptions: the user callback of Control and the socket-option setters", 2)
 	r.rule("C02.A7b", "every function that acquires a mutex releases it on every return path or defers the release", 1)
+	r.rule("C02.A10", "data that became readable is announced to a blocked reader, also when it was recovered by FEC: after the last change of the core in kcpInput the availability is tested and the token posted (= C13.W5b)", 2)
+	r.rule("C02.A11", "room made by the reader is used: after Recv has taken segments from the delivery queue every path to its return runs the loop that promotes parked segments from rcv_buf", 1)
 	r.rule("C02.A9", "the reorder heap releases the segment rcv_nxt when it is present: its comparator orders sequence numbers through the signed difference, also across the 32-bit wrap (= C12.K3)", 1)
 	r.rule("C02.A8", "Input calls flush(IKCP_FLUSH_FULL) whenever parse_una removed a segment or parse_fastack reported a hit", 1)
+	delegate(p, r, "C13", checkC13, "C13.W5b", "C02.A10")
+	{
+		recvF := p.FuncOf(p.Method("KCP", "Recv"))
+		c := p.CFG(recvF)
+		fQ, fB := p.Field("KCP", "rcv_queue"), p.Field("KCP", "rcv_buf")
+		var lastPop *Point
+		for _, s := range p.CallsTo(p.Method("RingBuffer", "Pop")) {
+			if s.Fn == recvF {
+				if _, ok := fieldBase(s.Recv, fQ); ok {
+					q, _ := c.PointOf(s.Call)
+					lastPop = &q
+				}
+			}
+		}
+		// the promotion loop: a loop whose condition tests rcv_buf and whose body pushes into rcv_queue
+		var hdr *cfg.Block
+		for _, s := range p.CallsTo(p.Method("RingBuffer", "Push")) {
+			if s.Fn != recvF {
+				continue
+			}
+			if _, ok := fieldBase(s.Recv, fQ); !ok {
+				continue
+			}
+			if lp, ok := enclosingLoop(p, s.Call).(*ast.ForStmt); ok && lp.Cond != nil && termHasField(p.ExpandHelpers(p.Term(lp.Cond)), fB) {
+				if hp, ok := c.PointOf(lp.Cond); ok {
+					hdr = hp.B
+				}
+			}
+		}
+		switch {
+		case lastPop == nil:
+			r.bad("C02.A11", recvF.Name, p.Pos(recvF.Node), "promotion of parked segments in Recv", "Recv never takes a segment from the delivery queue", "")
+		case hdr == nil:
+			r.bad("C02.A11", recvF.Name, p.Pos(recvF.Node), "promotion of parked segments in Recv", "Recv has no loop that moves segments from rcv_buf into rcv_queue: in-window segments that arrived while the delivery queue was full (already acknowledged, so never retransmitted) stay parked, rcv_nxt and the window stop moving and the connection stalls for good", "")
+		default:
+			res := c.FindPath(PathQuery{From: Point{lastPop.B, lastPop.I + 1}, ExitIsTarget: true, OnBlock: func(b *cfg.Block) (bool, bool) { return false, b == hdr }})
+			if res.Found {
+				r.bad("C02.A11", recvF.Name, p.Pos(recvF.Node), "promotion of parked segments in Recv", "a path returns from Recv after taking segments without running the promotion loop", c.DescribePath(res.Path))
+			} else {
+				r.ok("C02.A11", recvF.Name, p.Pos(recvF.Node), "promotion of parked segments in Recv", "every path from the last Pop to the return runs the rcv_buf -> rcv_queue loop")
+			}
+		}
+	}
 	{
 		sub := newReport("C12", r.Tier)
 		sub.curCfg = r.curCfg
